@@ -2,11 +2,10 @@
    Accept-Language (no side condition: parsing distributes over ", " for ALL texts of these families). *)
 From Coq Require Import ZArith NArith List Bool Lia.
 Require Import Webob.Lib.Val Webob.Lib.PyStr Webob.Lib.Rx Webob.Gen.C03_regexes Webob.Model.C03_scan
-               Webob.Model.C19_acceptstr Webob.Proofs.C19_valid Webob.Proofs.C19_simple Webob.Proofs.C19_add.
+               Webob.Model.C19_acceptstr Webob.Spec.C19_spec Webob.Proofs.C19_valid Webob.Proofs.C19_simple Webob.Proofs.C19_add.
 Import ListNotations.
 Local Open Scope N_scope.
 
-Definition all_ok : str -> Prop := fun _ => True.
 
 Lemma simple_falsy_text (v : pyval sitem qnum) : falsy v = true -> is_none v = false -> simple_value_text v = [].
 Proof.
